@@ -170,20 +170,34 @@ def get_unified_diff_hunks(lines, ignore_garbage=False):
                 # Reset for the next hunk. Pull the line numbers and ranges
                 # out of the header, as well as the context. Make sure all
                 # line numbers are 0-based.
+                try:
+                    orig_num_lines = int(m.group('orig_num_lines') or '1')
+                    orig_start = int(m.group('orig_start'))
+                    modified_num_lines = int(
+                        m.group('modified_num_lines') or '1')
+                    modified_start = int(m.group('modified_start'))
+                except ValueError:
+                    # The header has the right shape, but one of its numbers
+                    # can't be converted (it's longer than Python's limit
+                    # for integer string conversion). That's not a header
+                    # we can honor.
+                    raise MalformedHunkError(line=line,
+                                             line_num=line_num)
+
                 cur_hunk_orig = {
                     'first_changed_line': None,
                     'last_changed_line': None,
-                    'num_lines': int(m.group('orig_num_lines') or '1'),
+                    'num_lines': orig_num_lines,
                     'num_lines_changed': 0,
-                    'start_line': int(m.group('orig_start')) - 1,
+                    'start_line': orig_start - 1,
                 }
 
                 cur_hunk_modified = {
                     'first_changed_line': None,
                     'last_changed_line': None,
-                    'num_lines': int(m.group('modified_num_lines') or '1'),
+                    'num_lines': modified_num_lines,
                     'num_lines_changed': 0,
-                    'start_line': int(m.group('modified_start')) - 1,
+                    'start_line': modified_start - 1,
                 }
 
                 cur_hunk_entry = {
